@@ -5,7 +5,7 @@ import vlib
 from props import engine_common as ec
 
 PID = "C01"
-LEAN_MODULES = ["QbiceVerif.Props.C01", "QbiceVerif.Props.NonVacuity.C01"]
+LEAN_MODULES = ["QbiceVerif.Props.C01", "QbiceVerif.Props.C01Oracle", "QbiceVerif.Props.NonVacuity.C01"]
 DRIVER = "drv_engine"
 HARNESS_BIN = "engine"
 SINGLE = []      # no known finding left for the acyclic engine (F1, F14 fixed by 2abe9f6, b832249)
@@ -73,6 +73,23 @@ def collect(ctx, mode="acyclic", n_quick=400, n_thorough=20000, state=True):
         results = results + r2
     an = [ec.analyse(r, SINGLE) for r in results]
     reps = [r["report"] for r in results]
+    # the PROVED engine invariant (Props/C01Oracle.lean: inv_dump_sound / inv_dump_refutes) evaluated by the Lean
+    # checker `drv_engine inv` on every dumped state of the REAL engine (acyclic cases; all order classes: the
+    # invariant does not depend on walk orders)
+    inv_counts, inv_fails = {}, []
+    if state:
+        import glob, subprocess, sys as _sys
+        for d in sorted(glob.glob(os.path.join(ctx.work, "acyclic-*")) + glob.glob(os.path.join(ctx.work, "pjchain-*"))):
+            if not os.path.exists(os.path.join(d, "state_impl.txt")): continue
+            with open(os.path.join(d, "inv_ops.txt"), "w") as fh:
+                subprocess.run([_sys.executable, os.path.join(os.path.dirname(os.path.dirname(os.path.abspath(__file__))), "inv_join.py"), os.path.join(d, "ops.txt"),
+                                os.path.join(d, "state_impl.txt")], stdout=fh, check=False)
+            r = ec.inv_check(d, PID)
+            if r is None: continue
+            if "error" in r:
+                res.disagreements.append({"harness-error": r["error"]}); continue
+            for k, v in r["counts"].items(): inv_counts[k] = inv_counts.get(k, 0) + v
+            inv_fails += r["fails"]
     res.evaluations = sum(r["evaluations"] for r in reps)
     res.distinct_nontrivial = sum(r["distinct_nontrivial"] for r in reps)
     res.rule = reps[0]["rule"]
@@ -95,6 +112,9 @@ def collect(ctx, mode="acyclic", n_quick=400, n_thorough=20000, state=True):
     dist["cases_compared_strictly"] = sum(a["cases"] - a["order_sensitive_cases"] for a in an)
     # state-level tie (engine_common.analyse): digest of the real engine's bookkeeping = digest of the model state
     dist["state_lines_compared"] = sum(a["state_lines"] for a in an)
+    for k, v in sorted(inv_counts.items()): dist["proved_invariant_on_real_states:" + k.replace(" ", "_")] = v
+    for f in inv_fails[:6]:
+        res.oracle_failures.append({"sig": f["sig"], "desc": f["desc"], "case": f["case"]})
     dist["state_node_records_compared"] = sum(a["state_nodes"] for a in an)
     dist["state_cases_compared_strictly"] = sum(a["state_cases"] for a in an)
     dist["state_cases_skipped_order_sensitive"] = sum(a["state_skipped_cases"] for a in an)
